@@ -52,11 +52,43 @@ fn regex_text(atoms: &J) -> Result<String, String> {
                 }
             }
             "dot" => s.push('.'),
+            "cls" => {
+                let n = a["n"].as_str().ok_or("class name")?;
+                if !["d", "D", "s", "S", "w", "W"].contains(&n) {
+                    return Err("unknown regex class".into());
+                }
+                s.push('\\');
+                s.push_str(n);
+            }
+            "set" => {
+                s.push('[');
+                if a["neg"].as_bool().unwrap_or(false) {
+                    s.push('^');
+                }
+                let cs = a["cs"].as_array().ok_or("set members")?;
+                if cs.is_empty() {
+                    return Err("empty bracket class".into());
+                }
+                for c in cs {
+                    let c = char::from_u32(c.as_u64().ok_or("cp")? as u32).ok_or("cp")?;
+                    if !c.is_ascii_alphanumeric() {
+                        return Err("unrenderable bracket member".into());
+                    }
+                    s.push(c);
+                }
+                s.push(']');
+            }
             "star" => s.push_str(".*"),
             "lazy" => s.push_str(".*?"),
             "bol" => s.push('^'),
             "eol" => s.push('$'),
             x => return Err(format!("unknown regex atom {}", x)),
+        }
+        if let Some(r) = a.get("rep").and_then(|r| r.as_str()) {
+            match (tag(a), r) {
+                ("c" | "cls" | "set", "+" | "?" | "*") | ("dot", "+" | "?") => s.push_str(r),
+                _ => return Err("repetition on an atom that cannot carry it".into()),
+            }
         }
     }
     Ok(s)
